@@ -23,9 +23,13 @@ MANIFEST = dict(
           'item sequences, matching does not depend on || levels (|| -> | leaves `matched` unchanged), every offered candidate '
           'carries one level (the lowest that has a candidate extending the prefix) and extends the typed prefix, the '
           'word-break stripping lemmas, and the decided domain C01_domain implies its declarative reading at every point the '
-          'specification visits (C01_domain_sound, C01_domain_along_runs). The full statement C01_bash_meaning (BashSem.run = Meaning.complete outside the known '
-          'mechanisms) is stated over an abstract interpreter of the script and is NOT proved here (it needs Model/BashSem.v of '
-          'another work package). The implementation is judged directly: the extracted Meaning.complete against the emitted '
+          'specification visits (C01_domain_sound, C01_domain_along_runs). About the script itself: C01_bash_meaning_mixed proves that '
+          'BashSem.run_from Repaired (the interpreter of the /repo HEAD script, within-word functions included) on '
+          'Tables.all_tables Bash (Driver.compile_valid v) returns the status and, as sets, the required candidates of '
+          'Meaning.complete (required included in allowed) for every validated tree whose leaves are literals, commands, undefined '
+          'nonterminals and within-word expressions made of literals, on C01_domain outside ambiguous_run (two side conditions on '
+          'the compiled automaton with decidable sufficient forms: C01_subword_side_conditions); commands and undefined '
+          'nonterminals inside words are only stated (C01_bash_meaning_statement). The implementation is judged directly: the extracted Meaning.complete against the emitted '
           'script in real bash 5.2 on generated grammars inside the decided domain C01_domain (exhaustive small trees + seeded '
           'random grammars with definitions, descriptions, three || levels, within-word expressions, [], ...) x residual-set '
           'paths x prefixes x COMP_WORDBREAKS in {default, empty}; deviations are attributed to mechanism classes '
@@ -42,6 +46,10 @@ WITNESSES = [
     ('last_word_escape',
      lambda pr: [('call', 'cmd', ('seq', [('alt', [pr.new(['P1', 'Q']), ('nt', 'U')]), ('lit', 'z', None)]))],
      ['foo'], ''),
+    ('within_word_literal_shadows_nonterminal',
+     lambda pr: [('call', 'cmd', ('seq', [('sub', [('lit', '--x=', None), ('alt', [('lit', 'abc', None), ('nt', 'U')])]),
+                                          ('lit', 'z', None)]))],
+     ['--x=abcd'], ''),
 ]
 
 
@@ -52,7 +60,7 @@ def case_stream(ctx):
         pr = mspec.Probes()
         yield ('witness:' + cls, mk(pr), pr, [(ws, p)])
     # same-shaped within-word expressions with different accepting sets: always, with all their queries
-    for st, pr, qs in mspec.shape_family():
+    for st, pr, qs in mspec.shape_family() + mspec.greedy_family():
         yield ('targeted', [mspec.normalize_stmt(x) for x in st], pr, list(qs))
     # the targeted family: the pairs of item kinds: a seed-determined third in the quick tier, all otherwise; the others always
     pairs, others = mspec.targeted_family()
@@ -366,8 +374,9 @@ def shrink(exe, stmts, probes, ws, pre, wb, known, budget_s=60):
     return stmts, ws, pre
 
 
-KNOWN = ('piece_boundary', 'last_word_escape')
-CLASS_OF = {'piece_boundary': 'within_word_accepts_at_piece_boundary', 'last_word_escape': 'last_word_escape'}
+KNOWN = ('piece_boundary', 'last_word_escape', 'greedy_shadow')
+CLASS_OF = {'piece_boundary': 'within_word_accepts_at_piece_boundary', 'last_word_escape': 'last_word_escape',
+            'greedy_shadow': 'within_word_literal_shadows_nonterminal'}
 
 
 def run(ctx, res):
